@@ -191,7 +191,7 @@ func makeDenyPolicy(c Cfg) twig.SecurityPolicy {
 
 // path-like template names of the specification (TwigSem NT: pm |-> "p/m" ...): the key used in the
 // model's template table stands for the text the engine knows the template by
-var pathNames = map[string]string{"pqx": "p/q/x", "pn1": "p/n1", "pm": "p/m", "pb": "p/b", "ph": "p/h", "sh": "s/h", "sb": "s/b", "sm": "s/m"}
+var pathNames = map[string]string{"pqx": "p/q/x", "pn1": "p/n1", "pm": "p/m", "pb": "p/b", "ph": "p/h", "sh": "s/h", "sb": "s/b", "sm": "s/m", "phq": "p/hq", "shq": "s/hq"}
 
 func engineName(key string) string {
 	if n, ok := pathNames[key]; ok {
